@@ -732,11 +732,17 @@ func (g *SummaryGraph) addCallArgEdge(mark MarkWithAccessPath, cond *ConditionIn
 	}
 
 	for _, callNode := range callNodes {
-		callNodeArg := callNode.FindArg(arg)
-		if callNodeArg == nil {
+		// the same value may be passed at several positions: every such argument node gets the edge
+		found := false
+		for _, callNodeArg := range callNode.Args() {
+			if callNodeArg != nil && callNodeArg.Value() == arg {
+				found = true
+				g.addEdge(mark, callNodeArg, cond)
+			}
+		}
+		if !found {
 			panic("attempting to set call arg edge but no call arg node")
 		}
-		g.addEdge(mark, callNodeArg, cond)
 	}
 }
 
